@@ -174,9 +174,9 @@ class World:
         else:
             self.cap = cap
         dl = P(params, "deadline", "sym" if self.timed else 1000000)
-        self.deadline = sym.real("deadline", lo=0) if dl == "sym" else dl
+        self.deadline = self.dur("deadline") if dl == "sym" else dl
         if self.timed:
-            self.clock.now = sym.real("t0", lo=0)
+            self.clock.now = self.dur("t0")
         # strategies
         st = P(params, "strat", {})
         self.raw_mode = st.get("raw", "zero")
@@ -204,6 +204,14 @@ class World:
         self.rclass_obj = P(params, "rclass_obj", False)
         self.fault = None  # set by fault-plan harnesses
 
+    def dur(self, name, lo=0):
+        """A solver-chosen time quantity: any real, or (params grid=k) a multiple of 1/k microsecond,
+        which keeps the microsecond-rounding timedelta model within integer arithmetic."""
+        g = P(self.p, "grid", None)
+        if g is None:
+            return self.sym.real(name, lo=lo)
+        return self.sym.int(name, lo, None) / (g * 1000000)
+
     def choice(self, name, options):
         """Solver-chosen option unless the job pins it (jobs split the space by pinning)."""
         if name in self.pin:
@@ -228,7 +236,7 @@ class World:
             if w.raw_mode == "zero":
                 raw = 0.0
             elif w.raw_mode == "real":
-                raw = w.sym.real(f"raw{j}")
+                raw = w.dur(f"raw{j}", lo=None)
             else:  # any: real, nan, +inf, -inf
                 k = w.sym.choice(f"rawkind{j}", ["real", "nan", "inf", "-inf"])
                 raw = {"nan": NAN, "inf": INF, "-inf": -INF}.get(k)
@@ -270,7 +278,8 @@ class World:
         i = self.n
         self.t(("op", i, self.now))
         if self.timed:
-            self.clock.now = self.now + self.sym.real(f"d{i}", lo=0)
+            self.clock.now = self.now + self.dur(f"d{i}")
+        self.t(("op_end", i, self.now))
         kind, klass = self._outcome(i)
         if kind == "ok":
             obj = Res(i, None)
@@ -294,6 +303,12 @@ class World:
             raise AssertionError(kind)
         self.objs[i] = (kind, obj, klass)
         raise obj
+
+    def objs_kind_is_failure(self, i):
+        """Outcome kind of attempt i is known by the time op_end is traced? No: the outcome is chosen
+        after op_end, so look it up lazily from the script (filled in by the time checkers run)."""
+        kind = self.script.get(i, ("ok", None))[0] if i <= self.N else "ok"
+        return kind in ("exc", "res")
 
     def op(self):
         return self._op_body()
@@ -365,7 +380,7 @@ class World:
         if f is not None and f.get("site") == "sleeper":
             raise f["exc"]()
         if self.timed:
-            self.clock.now = self.now + s + self.sym.real(f"ov{self.sleeps}", lo=0)
+            self.clock.now = self.now + s + self.dur(f"ov{self.sleeps}")
 
     def sleeper(self, s):
         self._sleep_body(s)
@@ -424,7 +439,7 @@ class World:
         return kw
 
     def env(self):
-        return env.patched(self.clock, td=env.TD)
+        return env.patched(self.clock, td=env.TDus if P(self.p, "td", "exact") == "us" else env.TD)
 
     # ---- running one entry point ----------------------------------------------------------
     def build(self, entry, *, breaker=None):
